@@ -289,6 +289,19 @@ func (c *Ctx) rawSchema(depth int, pos string) *Schema {
 		s = &Schema{}
 	case "array":
 		s = &Schema{Type: "array", Items: c.Schema(depth-1, "items")}
+		// items that are an inline composition (not a $ref to one)
+		if depth > 1 && rapid.IntRange(0, 4).Draw(t, "items_inline_composite") == 0 {
+			var it *Schema
+			if rapid.Bool().Draw(t, "items_allof") {
+				it = c.allOfSchema(depth - 1)
+			} else {
+				it = c.oneOfSchema(depth - 1)
+			}
+			if cand := (&Schema{Type: "array", Items: it}); c.AllowSchema(cand, pos) {
+				s = cand
+				c.Tag("array:items-inline-composite")
+			}
+		}
 	case "object":
 		s = c.objectSchema(depth, true)
 	case "map":
@@ -496,6 +509,23 @@ func (c *Ctx) allOfSchema(depth int) *Schema {
 			}
 			s.AllOf = append(s.AllOf, m)
 			order += "I"
+		}
+	}
+	// a last member that is an open object (declared properties beside
+	// additionalProperties): it takes every key the members before it did not claim
+	if rapid.IntRange(0, 3).Draw(t, "allof_open_last") == 0 {
+		open := c.plainObject(0)
+		if rapid.Bool().Draw(t, "allof_open_typed") {
+			open.AdditionalProperties = &AddProps{Schema: &Schema{Type: "string"}}
+		} else {
+			open.AdditionalProperties = &AddProps{Bool: Bool(true)}
+		}
+		if c.AllowSchema(open, "component") {
+			ref := c.AddSchema(c.CompName("Obj", "allof_open"), open)
+			if c.AllowSchema(ref, "allof-member") {
+				s.AllOf = append(s.AllOf, ref)
+				order += "O"
+			}
 		}
 	}
 	c.Tag("allOf:" + order)
